@@ -33,7 +33,10 @@ def check_fill(repo, rep, tier):
     start = 1_600_000_020_000 // MIN * MIN
     n_cases = 0
     for n in range(1, N + 1):
-        for present in itertools.product([False, True], repeat=n):
+      for present, extra in [(pr, 0) for pr in itertools.product([False, True], repeat=n)] + \
+                            [(pr, e) for pr in itertools.product([False, True], repeat=n) for e in (1, n - sum(pr)) if e > 0 and n <= 4]:
+            # extra: the batch also holds `extra` candles AFTER the requested interval (a limit-sized batch of an exchange that skips
+            # minutes without trades runs past the end): they are not part of the result
             if not any(present):
                 continue
             n_cases += 1
@@ -41,7 +44,7 @@ def check_fill(repo, rep, tier):
             def mk(dec):
                 it = Interp(repo, stubs=W.base_stubs(), decisions=dec)
                 temp = []
-                for k, pr in enumerate(present):
+                for k, pr in enumerate(list(present) + [True] * extra):
                     if pr:
                         temp.append({"id": f"id{k}", "exchange": "X", "symbol": "BTC-USDT", "timeframe": "1m", "timestamp": num(start + k * MIN),
                                      "open": A(f"o{k}"), "close": A(f"c{k}"), "high": A(f"h{k}"), "low": A(f"l{k}"), "volume": A(f"v{k}")})
@@ -49,7 +52,7 @@ def check_fill(repo, rep, tier):
                 fn = repo.func(IMPORT, "_fill_absent_candles")
                 return it, lambda it: it.call(FuncV(fn, repo.module(IMPORT), qual="_fill_absent_candles"),
                                               [list(temp), num(start), num(start + (n - 1) * MIN)], {})
-            pat = "".join("x" if p else "." for p in present)
+            pat = "".join("x" if p else "." for p in present) + ("|" + "x" * extra if extra else "")
             for out in explore(mk, 16):
                 key = f"pattern {pat}"
                 if out.kind != "return" or not isinstance(out.value, list):
